@@ -4,7 +4,7 @@
    to /repo by the correspondence check on every run). *)
 From Coq Require Import List ZArith Lia Bool.
 From RecordUpdate Require Import RecordSet.
-From Sim Require Import Map Variant Current Kernel Queue Net Pcap SimState Sim RegistryProofs SockProofs QueueProofs.
+From Sim Require Import Map Variant Current Kernel Queue Net Pcap SimState Sim RegistryProofs SockProofs QueueProofs RxProofs AcceptProofs ProgressProofs.
 Import ListNotations.
 Import RecordSetNotations.
 Local Open Scope Z_scope.
@@ -31,3 +31,81 @@ Theorem C06_repairs_in_place :
 Proof. repeat split; reflexivity. Qed.
 Print Assumptions C06_repairs_in_place.
 
+
+(* ---- writer side ---- *)
+Theorem C06_ack_wakes_a_writer_whenever_the_window_has_room :
+  forall cx s p w acked,
+  d33_writer_level (cv cx) = true -> p_type p = PAck ->
+  outst_find (t_outst (get_tcp w s)) (p_seq p) = Some acked ->
+  let t := get_tcp w s in
+  let t1 := t <| t_outst := filter (fun x => negb (fst x =? p_seq p)) (t_outst t) |>
+              <| t_inflight := t_inflight t - acked |> in
+  let r := resend_loop cx (length (t_outgoing t1)) s (set_tcp w s t1) in
+  let t2 := get_tcp (fst r) s <| t_cwnd := t_cwnd (get_tcp (fst r) s) + t_mss (get_tcp (fst r) s) * acked / t_cwnd (get_tcp (fst r) s) |> in
+  t_inflight t2 + t_mss t2 <= t_cwnd t2 ->
+  tcp_incoming cx s p w =
+    (fst (tcp_maybe_wakeup_writer cx s (set_tcp (fst r) s t2)),
+     snd r ++ snd (tcp_maybe_wakeup_writer cx s (set_tcp (fst r) s t2))).
+Proof. exact ack_wakes_the_writer. Qed.
+Print Assumptions C06_ack_wakes_a_writer_whenever_the_window_has_room.
+
+Theorem C06_a_woken_writer_runs_the_pending_write :
+  forall cx s w h, t_send_h (get_tcp w s) = Some h ->
+  tcp_maybe_wakeup_writer cx s w =
+    tcp_async_write_impl cx s (t_send_buf (get_tcp w s)) h (set_tcp w s (get_tcp w s <| t_send_h := None |>)).
+Proof. exact woken_writer_is_the_pending_write. Qed.
+Print Assumptions C06_a_woken_writer_runs_the_pending_write.
+
+Theorem C06_a_write_with_room_in_the_window_completes :
+  forall cx s bufs h w ci,
+  let t := get_tcp w s in
+  t_open t = true -> t_chan t = Some ci -> t_connect_h t = None ->
+  chan_hops (get_chan w ci) (remote_idx (get_chan w ci) (t_bound t)) <> [] ->
+  t_inflight t + t_mss t <= t_cwnd t ->
+  exists w' n c, tcp_async_write_impl cx s bufs h w = (w', c ++ [KPost (TUser h [EC_OK; n])]) /\
+                 t_send_h (get_tcp w' s) = None.
+Proof. exact unblocked_write_completes. Qed.
+Print Assumptions C06_a_write_with_room_in_the_window_completes.
+
+Theorem C06_a_write_blocks_only_on_a_full_window :
+  forall cx s bufs w ci,
+  let t := get_tcp w s in
+  t_open t = true -> t_chan t = Some ci -> t_connect_h t = None ->
+  chan_hops (get_chan w ci) (remote_idx (get_chan w ci) (t_bound t)) <> [] ->
+  (fst (fst (fst (tcp_write_some cx s bufs w))) = EC_WOULD_BLOCK <-> t_cwnd t < t_inflight t + t_mss t).
+Proof. exact write_blocks_only_on_a_full_window. Qed.
+Print Assumptions C06_a_write_blocks_only_on_a_full_window.
+
+(* with nothing in flight a writer is therefore never blocked: the window always holds one segment *)
+Theorem C06_a_drop_leaves_room_for_one_segment :
+  forall v s p w ci,
+  t_chan (get_tcp w s) = Some ci -> 0 < t_mss (get_tcp w s) -> t_mss (get_tcp w s) <= t_cwnd (get_tcp w s) ->
+  let t' := get_tcp (fst (tcp_packet_dropped v s p w)) s in
+  t_mss t' = t_mss (get_tcp w s) /\ t_mss t' <= t_cwnd t'.
+Proof. exact drop_keeps_room_for_one_segment. Qed.
+Print Assumptions C06_a_drop_leaves_room_for_one_segment.
+
+(* ---- dropped segments are resent, oldest first, as soon as they fit ---- *)
+Theorem C06_resend_takes_the_oldest_queued_segment :
+  forall cx f s w p r,
+  t_outgoing (get_tcp w s) = p :: r ->
+  t_inflight (get_tcp w s) + Z.of_nat (length (p_buf p)) <= t_cwnd (get_tcp w s) ->
+  resend_loop cx (S f) s w =
+    (let (w1, c1) := tcp_send_packet cx s p (set_tcp w s (get_tcp w s <| t_outgoing := r |>)) in
+     let (w2, c2) := resend_loop cx f s w1 in (w2, c1 ++ c2)).
+Proof. exact resend_takes_the_oldest_queued_segment. Qed.
+Print Assumptions C06_resend_takes_the_oldest_queued_segment.
+
+(* ---- receiver: what can be delivered is never held back in the reorder buffer ---- *)
+Theorem C06_reorder_buffer_never_holds_the_awaited_segment :
+  forall sent evs, wf_sent sent -> Forall (ok_ev sent) evs ->
+  let r := fst (fold_left rx_step evs rx_init) in
+  forall k p, In (k, p) (rx_ro r) -> k <> rx_next r.
+Proof. exact nothing_deliverable_is_held_back. Qed.
+Print Assumptions C06_reorder_buffer_never_holds_the_awaited_segment.
+
+(* ---- connects: an accept is never left outstanding while a connection waits ---- *)
+Theorem C06_outstanding_accept_means_empty_backlog :
+  forall evs, let b := fold_left bk_step evs bk_init in bk_pending b = true -> bk_conns b = [].
+Proof. exact outstanding_accept_means_empty_backlog. Qed.
+Print Assumptions C06_outstanding_accept_means_empty_backlog.
